@@ -287,8 +287,8 @@ def gen_hyper(rng, force_default_list=False):
     nlin = rng.randint(1, 3)
     via = "create" if rng.random() < 0.75 else "direct"
     default_list = force_default_list or (via == "create" and rng.random() < 0.25)
-    inner = _arch(rng, width, nout, nlin, wmax=1,
-                  final_act=False if default_list else (rng.random() < 0.3))
+    inner = _arch(rng, width, nout, nlin, wmax=1, final_act=rng.random() < 0.3,
+                  lead_act=default_list and rng.random() < 0.25)
     # widths <= 2 in the hidden layers
     inner_spec = _spec_of(inner)
     shapes = []
@@ -310,8 +310,10 @@ def gen_hyper(rng, force_default_list=False):
         base = copy.deepcopy(inner_spec)
     else:
         hl = rng.randint(1, 2)
+        # activations at either end of the hyper list are kept by create_HYPERPINN (only the first / last
+        # Linear's input / output sizes are rewritten)
         base = _spec_of(_arch(rng, rng.randint(1, 4), rng.randint(1, 5), hl, allow_square=False,
-                              final_act=(via == "direct" and rng.random() < 0.3)))
+                              final_act=rng.random() < 0.3, lead_act=rng.random() < 0.2))
         hyper_spec_user = copy.deepcopy(base)
     # the architecture after create_HYPERPINN's rewriting (generator-side knowledge, validated by the model)
     lin_idx = [i for i, s in enumerate(base) if "lin" in s]
@@ -340,17 +342,12 @@ def gen_hyper_reject(rng):
     if c["slice_solution"] is not None and "range" in c["slice_solution"]:
         c["slice_solution"] = None
     r = rng.random()
-    if r < 0.25:
+    if r < 0.4:
         c["eq_type"] = "foo"
-    elif r < 0.45:
-        c["dim_x"] = 1 if c["eq_type"] == "ODE" else 0
     elif r < 0.75:
-        # hyper list ending with an activation (create_HYPERPINN concatenates the bare 1-tuple)
-        spec = copy.deepcopy(c["hyper_spec"]) if c["hyper_spec"] is not None else copy.deepcopy(c["inner_spec"])
-        c["hyper_spec"] = spec + [{"act": "relu"}]
+        c["dim_x"] = 1 if c["eq_type"] == "ODE" else 0
     else:
-        spec = copy.deepcopy(c["hyper_spec"]) if c["hyper_spec"] is not None else copy.deepcopy(c["inner_spec"])
-        c["hyper_spec"] = [{"act": "id"}] + spec
+        c["eq_type"], c["dim_x"] = "ODE", rng.randint(1, 3)
     return c
 
 
@@ -783,10 +780,6 @@ def tags(case, obs):
         out.append("skipped_inexact(magnitude guard)")
     if obs.get("create_error"):
         out.append(f"create_error={obs['create_error']}")
-        if case["kind"] == "hyper" and obs["create_error"] == "type_error":
-            # create_HYPERPINN cannot build a hyper-network whose eqx_list starts or ends with an activation
-            # (it concatenates the bare 1-tuple); mirrored by the model (`hyperArch`), reported as a finding
-            out.append("create_HYPERPINN_rejects_activation_at_either_end_of_hyper_list")
     for o in _values(obs):
         if "error" in o:
             out.append(f"call_error={o['error']}")
@@ -802,6 +795,9 @@ def tags(case, obs):
         out += [f"hyperparams={len(case['hyperparams'])}",
                 f"inner_linear_layers={sum(1 for s in case['inner_spec'] if 'lin' in s)}",
                 "hyper_list=default" if case["hyper_spec"] is None else "hyper_list=given"]
+        hl = case["hyper_spec"] if case["hyper_spec"] is not None else case["inner_spec"]
+        if case["via"] == "create" and hl and ("act" in hl[0] or "act" in hl[-1]):
+            out.append("hyper_list_with_activation_at_an_end(via=create)")
     if case["kind"] == "spinn":
         out += [f"d={case['d']}", f"r={case['r']}", f"m={case['m']}"]
         if case["calls"]:
